@@ -232,6 +232,33 @@ impl<
         }
     }
 
+    /// Removes the entry only if it still carries a TTL that has elapsed. The check and
+    /// the removal happen under the same shard lock, so an entry that a client has just
+    /// updated (new deadline, or no TTL at all) is never swept by the cleanup.
+    fn try_remove_if_expired(
+        &self,
+        key: &u64,
+        conflict: u64,
+    ) -> Result<Option<StoreItem<V>>, CacheError> {
+        let mut data = self.shards[(*key as usize) % NUM_OF_SHARDS].write();
+
+        match data.get(key) {
+            None => Ok(None),
+            Some(item) => {
+                if conflict != 0 && (conflict != item.conflict) {
+                    return Ok(None);
+                }
+
+                if item.expiration.is_zero() || !item.expiration.is_expired() {
+                    return Ok(None);
+                }
+
+                self.em.try_remove(key, item.expiration)?;
+                Ok(data.remove(key))
+            }
+        }
+    }
+
     pub fn expiration(&self, key: &u64) -> Option<Time> {
         self.shards[((*key) as usize) % NUM_OF_SHARDS]
             .read()
@@ -252,27 +279,20 @@ impl<
                 m.iter()
                     // Sanity check. Verify that the store agrees that this key is expired.
                     .filter_map(|(k, v)| {
-                        self.expiration(k)
-                            .and_then(|t| {
-                                if t.is_expired() {
-                                    let cost = policy.cost(k);
-                                    policy.remove(k);
-                                    self.try_remove(k, *v)
-                                        .map(|maybe_sitem| {
-                                            maybe_sitem.map(|sitem| CrateItem {
-                                                val: Some(sitem.value.into_inner()),
-                                                index: sitem.key,
-                                                conflict: sitem.conflict,
-                                                cost,
-                                                exp: t,
-                                            })
-                                        })
-                                        .ok()
-                                } else {
-                                    None
+                        self.try_remove_if_expired(k, *v)
+                            .ok()
+                            .flatten()
+                            .map(|sitem| {
+                                let cost = policy.cost(k);
+                                policy.remove(k);
+                                CrateItem {
+                                    exp: sitem.expiration,
+                                    val: Some(sitem.value.into_inner()),
+                                    index: sitem.key,
+                                    conflict: sitem.conflict,
+                                    cost,
                                 }
                             })
-                            .flatten()
                     })
                     .collect()
             }))
@@ -289,22 +309,16 @@ impl<
         let mut removed_items = Vec::new();
         if let Some(items) = items {
             for (k, v) in items.iter() {
-                let expiration = self.expiration(k);
-                if let Some(t) = expiration {
-                    if t.is_expired() {
-                        let cost = policy.cost(k);
-                        policy.remove(k);
-                        let removed_item = self.try_remove(k, *v)?;
-                        if let Some(sitem) = removed_item {
-                            removed_items.push(CrateItem {
-                                val: Some(sitem.value.into_inner()),
-                                index: sitem.key,
-                                conflict: sitem.conflict,
-                                cost,
-                                exp: t,
-                            })
-                        }
-                    }
+                if let Some(sitem) = self.try_remove_if_expired(k, *v)? {
+                    let cost = policy.cost(k);
+                    policy.remove(k);
+                    removed_items.push(CrateItem {
+                        exp: sitem.expiration,
+                        val: Some(sitem.value.into_inner()),
+                        index: sitem.key,
+                        conflict: sitem.conflict,
+                        cost,
+                    })
                 }
             }
         }
